@@ -354,6 +354,16 @@ class StmtMixin:
             if isinstance(target.slice, ast.Slice):
                 # a[lo:hi] = b on a 1-D array: element-wise copy (the new contents are a lambda over the old ones: no quantifier needed)
                 sl = target.slice
+                if isinstance(base, Obj) and base.kind == 'arr' and base.view is None and sl.lower is None and sl.upper is None and sl.step is None \
+                        and not (base.ndim == 1 and isinstance(v, Obj) and v.kind in ('arr', 'seq') and v.ndim == 1):
+                    # a[:] = <value that is not a modelled 1-D sequence> (e.g. a reversed or multi-dimensional view): every element of `a` is
+                    # overwritten; the new contents are not modelled - an arbitrary (fresh) contents value, same object, same shape
+                    fid = self.arr_fid(base)
+                    f = self.field(st, fid)
+                    self.counter += 1
+                    st.heap[fid] = z3.Store(f, base.ref, z3.Const('contents!%d' % self.counter, f.range()))
+                    self.notes.add('whole-array assignment %s[:] = ... : new contents treated as arbitrary' % ast.unparse(target.value))
+                    return
                 if not (isinstance(base, Obj) and base.kind in ('arr', 'seq') and base.ndim == 1 and base.view is None and sl.step is None
                         and isinstance(v, Obj) and v.kind in ('arr', 'seq') and v.ndim == 1):
                     raise Unsupported('slice assignment')
